@@ -59,7 +59,15 @@ def run_case(case):
         if m.status == "rejected":
             return common.result_base(w, outcome="skip", reason="ref-rejected-other")
         if exc is not None:
-            return common.result_base(w, outcome="skip", reason="constructor-refused:" + type(exc).__name__)
+            if m.gaps:
+                return common.result_base(w, outcome="skip", reason="constructor-refused:" + type(exc).__name__)
+            # every level table of this design is total and unambiguous and nothing else about it is outside the documented
+            # behaviour: a refusal means some derivation was evaluated as something other than the function that was declared
+            base = common.result_base(w, key=key, nontrivial=True, summary={"design": dast.describe(ast)})
+            base.update(outcome="violation", signature="C15/well-defined-design-refused/" + type(exc).__name__,
+                        detail="the constructor refused a design whose derivations are total and unambiguous: %s: %s ; design=%s"
+                        % (type(exc).__name__, str(exc)[:200], dast.describe(ast)))
+            return base
         other_gaps = [g for g in m.gaps if g not in ("latinsquare", "sequential-with-preamble", "run-constraint-on-strided-factor")]
         if other_gaps:
             return common.result_base(w, outcome="skip", reason="doc-gap:" + other_gaps[0])
